@@ -110,6 +110,7 @@ var vLong3 = strings.Repeat("\u20ac", 190)
 var vTexts = []string{"hi", "", ":x", "a b", "x\ry", "x\x00y", "x\rQUIT :injected", vLong600, vLong520, "ünï", "x\ny", "x\n:b!ub@robust/0x5 PRIVMSG #c :forged",
 	// long runs of 4-byte and 3-byte characters at every byte alignment: the 510-byte cut of a relayed line
 	// then falls after the 1st, 2nd or 3rd byte of a character
+	"\u023a\u023a\u023a\u0130\u0130\u1e9e x", // letters whose lower-/upper-case form has another length in UTF-8
 	"a\rb\nc", "a\x00b\nc", "a\rQUIT :x\n:b!ub@robust/0x5 PRIVMSG #c :forged\n",
 	vLong4, "a" + vLong4, "aa" + vLong4, "aaa" + vLong4, vLong3, "a" + vLong3, "aa" + vLong3}
 
@@ -140,14 +141,14 @@ func vClientLines(now int64, full bool) []VLine {
 	add("part", "PART #c", "PART #C", "PART #d", "PART #c,#d", "PART #none", "PART #c :bye", "PART", "PART :", "PART ,")
 	add("kick", "KICK #c a", "KICK #c b", "KICK #c B", "KICK #c c", "KICK #c nobody", "KICK #d a", "KICK #d b", "KICK #c a :reason", "KICK #c b :", "KICK #c ChanServ", "KICK #none a", "KICK #c", "KICK", "KICK #c :", "KICK : :", "KICK #C a", "KICK #C b", "KICK #C c :x", "KICK #D b")
 	add("topic", "TOPIC #c", "TOPIC #c :", "TOPIC #c :new topic", "TOPIC #c new", "TOPIC #d :x", "TOPIC #d :", "TOPIC #C :t2", "TOPIC #none :x", "TOPIC #none", "TOPIC", "TOPIC :", "TOPIC #c a b", "TOPIC #c a :")
-	add("mode", "MODE #c", "MODE #c +i", "MODE #c -i", "MODE #c +k key", "MODE #c +k KEY", "MODE #c +k", "MODE #c -k", "MODE #c -k key", "MODE #c +b", "MODE #c b", "MODE #c +b a!*@*", "MODE #c +b b!*@*", "MODE #c -b b!*@*", "MODE #c -b a!*@*", "MODE #c +ikob sesame b", "MODE #c +bo b", "MODE #c +ob a", "MODE #c +bi", "MODE #c +bk sesame", "MODE #c -bo a", "MODE #c -b *!*@robust/0x5", "MODE #c -b *!*@robust/0x8", "MODE #c +b *!*@robust/0x5", "MODE #c +b *!*@robust/0x8", "MODE #c +b *!*@10.0.0.*",
+	add("mode", "MODE #c", "MODE #c +i", "MODE #c -i", "MODE #c +k key", "MODE #c +k KEY", "MODE #c +k", "MODE #c -k", "MODE #c -k key", "MODE #c +b", "MODE #c b", "MODE #c +b a!*@*", "MODE #c +b b!*@*", "MODE #c -b b!*@*", "MODE #c -b a!*@*", "MODE #c +b \u023a\u023a\u023a\u023a@robust/0x5", "MODE #c +b \u023a\u023a\u023a\u023a\u023a\u023a\u023a\u023a@ROBUST/0X5", "MODE #c +b \u0130\u0130\u0130!\u1e9e@robust/0x8", "MODE #c +ikob sesame b", "MODE #c +bo b", "MODE #c +ob a", "MODE #c +bi", "MODE #c +bk sesame", "MODE #c -bo a", "MODE #c -b *!*@robust/0x5", "MODE #c -b *!*@robust/0x8", "MODE #c +b *!*@robust/0x5", "MODE #c +b *!*@robust/0x8", "MODE #c +b *!*@10.0.0.*",
 		"MODE #c +b *!*@robust/0x2", "MODE #c +b *!*@robust/0x5", "MODE #c +b *!*@robust/0xzz", "MODE #c +b [", "MODE #c +b (", "MODE #c +b \\", "MODE #c +o b", "MODE #c -o a", "MODE #c -o b", "MODE #c +o a", "MODE #c +o nobody", "MODE #c +o", "MODE #c +x", "MODE #c -x", "MODE #c +t", "MODE #c -t",
 		"MODE #c +n", "MODE #c -n", "MODE #c +s", "MODE #c -s", "MODE #c +t-t", "MODE #c +nst", "MODE #c +G", "MODE #c +z", "MODE #c +ob b a!*@*", "MODE #c +", "MODE #c -", "MODE #c :", "MODE #c o", "MODE #c +r", "MODE #c +d x", "MODE #d +i", "MODE #d +o a", "MODE #d -o b", "MODE #d +k k2",
 		"MODE a +i", "MODE a -i", "MODE a +G", "MODE a -G", "MODE b +i", "MODE b", "MODE a", "MODE a +o", "MODE a +", "MODE a :", "MODE", "MODE #none +i", "MODE nobody +i", "MODE ChanServ +i", "MODE A +i", "MODE a +iG", "MODE a +r",
 		"MODE #C +i", "MODE #C +o b", "MODE #C -o a", "MODE #C +k key", "MODE #C +b b!*@*", "MODE #C", "MODE #D +o a")
 	add("invite", "INVITE b #c", "INVITE a #c", "INVITE c #c", "INVITE nobody #c", "INVITE b #none", "INVITE b #d", "INVITE a #d", "INVITE c #d", "INVITE b", "INVITE", "INVITE ChanServ #c", "INVITE b #C", "INVITE B #c")
 	add("kill", "KILL b :bye", "KILL a :self", "KILL c :x", "KILL nobody :x", "KILL ChanServ :x", "KILL b", "KILL", "KILL b :", "KILL svc :x", "KILL services.robustirc.net :x")
-	add("gline", "GLINE b :spam", "GLINE a :self", "GLINE c :x", "GLINE nobody :x", "GLINE ChanServ :x", "GLINE b", "GLINE")
+	add("gline", "GLINE b :spam", "GLINE a :self", "GLINE c :x", "GLINE nobody :x", "GLINE ChanServ :x", "GLINE b", "GLINE b :", "GLINE c :", "GLINE")
 	for _, c := range []string{"PRIVMSG", "NOTICE"} {
 		add("msg", c+" #c :hi", c+" #C :hi", c+" #d :hi", c+" #none :x", c+" b :hi", c+" B :hi", c+" a :self", c+" c :x", c+" nobody :x", c+" $* :wall", c+" $", c+" ChanServ :help", c+" NickServ :identify x", c+" #c", c, c+" :", c+" #c :", c+" b :", c+" #c hi there", c+" # :x", c+" , :x")
 	}
@@ -172,6 +173,9 @@ func vClientLines(now int64, full bool) []VLine {
 			VLine{Data: "PING x", Dt: dt, Tag: "time"}, VLine{Data: "WHOIS a", Dt: dt, Tag: "time"}, VLine{Data: "NICK z", Dt: dt, Tag: "time"})
 	}
 	ls = append(ls, VLine{Data: "PING x", Dt: -1, Tag: "time"}) // same timestamp as the previous entry
+	// timestamps BEFORE the previous entry (a new leader whose clock lags behind the old one's, within the 2 s
+	// the time safeguard tolerates)
+	ls = append(ls, VLine{Data: "PRIVMSG #c :from the past", Dt: -1500 * time.Millisecond, Tag: "time"}, VLine{Data: "NICK past", Dt: -1500 * time.Millisecond, Tag: "time"})
 	// address deviations
 	ls = append(ls, VLine{Data: "PING x", Addr: "10.9.9.9", Tag: "addr"}, VLine{Data: "JOIN #c", Addr: "10.0.0.77", Tag: "addr"}, VLine{Data: "PING x", Addr: "-", Tag: "addr"}, VLine{Data: "NICK q", Addr: "10.9.9.9", Tag: "addr"})
 	if full {
@@ -325,6 +329,7 @@ func vNonLineEntries(sessions []robust.Id, rev uint64) []VEntry {
 		es = append(es,
 			VEntry{Type: robust.DeleteSession, Session: s, Data: "bye"},
 			VEntry{Type: robust.DeleteSession, Session: s, Data: "Ping timeout (30m0s)"},
+			VEntry{Type: robust.DeleteSession, Session: s, Data: "Ping timeout: 180 seconds"},
 			VEntry{Type: robust.DeleteSession, Session: s, Data: "x\ry"},
 			VEntry{Type: robust.DeleteSession, Session: s, Data: "x\nQUIT :y"},
 			VEntry{Type: robust.MessageOfDeath, Session: s, Data: "PANIC", ClientMessageId: 424242},
